@@ -73,11 +73,22 @@ def parseCost (s : String) : Option Cost :=
       pure (some a, b)
   | _ => none
 
+/-- the ids whose `falsifiedBy` was *called*, in order (the one that raised included), and the verdict -/
 def showOutcome (ev : List (Nat × Bool)) (o : Outcome) : String :=
-  showNats (ev.map (·.1)) ++ "=" ++ match o with
+  let called := ev.map (·.1) ++ (match o with | .rejectExc id => [id] | _ => [])
+  showNats called ++ "=" ++ match o with
     | .accept => "A"
     | .reject id => s!"R{id}"
+    | .rejectExc id => s!"E{id}"
     | .crash => "X"
+
+/-- per requirement id: `0` returns False, `1` returns True, `x` raises RejectionException -/
+def falsFn (s : String) : Nat → Option Bool :=
+  let cs := if s == "-" then [] else s.toList
+  fun i => match cs.getD i '0' with
+    | 'x' => none
+    | '1' => some true
+    | _ => some false
 
 def mkReqs (opt act : List Bool) : List Req :=
   (List.range opt.length).map fun i => ⟨i, opt.getD i false, act.getD i false⟩
@@ -91,7 +102,7 @@ def wrun (B : Nat) (given : Bool) (opt : List Bool) : State → List (List Strin
     | act :: fals :: ts :: more => do
       let ts ← rats ts
       let reqs := mkReqs opt (bits act)
-      let f := lookup (bits fals)
+      let f := falsFn fals
       let key ← if given then
           match more with
           | [cs] => do
@@ -113,7 +124,7 @@ def brun (reqs0 : List Req → List Req) (opt : List Bool) : List (List String) 
     match call with
     | [act, fals] =>
       let reqs := reqs0 (mkReqs opt (bits act))
-      let (ev, out) := basicLoop CC (lookup (bits fals)) reqs
+      let (ev, out) := basicLoop CC (falsFn fals) reqs
       brun reqs0 opt rest (showOutcome ev out :: acc)
     | _ => none
 
@@ -169,11 +180,11 @@ def handle : List String → String
   | ["fals", "I", a, b, x] => (do
       let a ← bit? a; let b ← bit? b; let x ← bit? x
       let w : World := ⟨fun i => if i == 0 then a else b, fun _ => true, fun _ _ => x, fun _ => true,
-        fun _ _ _ => true, fun _ => false, fun _ => false⟩
+        fun _ _ _ => true, fun _ => false, fun _ => false, fun _ => false⟩
       pure (if falsified DC w (.intersection 0 1) then "1" else "0")).getD "bad-op"
   | ["fals", k, x] => (do
       let x ← bit? x
-      let w : World := ⟨fun _ => false, fun _ => true, fun _ _ => x, fun _ => x, fun _ _ _ => x, fun _ => x, fun _ => x⟩
+      let w : World := ⟨fun _ => false, fun _ => true, fun _ _ => x, fun _ => x, fun _ _ _ => x, fun _ => x, fun _ => x, fun _ => false⟩
       let kind ← match k with
         | "C" => some (ReqKind.containment 0)
         | "V" => some (ReqKind.visibility 0 1 [])
